@@ -1,7 +1,9 @@
-(* C14 — real interval operations contain every exact result (arithmetic part proved so far: + - neg pos, finite
-   endpoints of any length, every precision incl. exact).  The result is again a valid interval. *)
+(* C14 — real interval operations contain every exact result: + - neg pos * square abs / sqrt, finite endpoints of any
+   length, every precision (incl. exact where the operation allows it), every pair of member reals.  The result is again
+   a valid interval.  Not covered by theorems: infinite endpoints, division by an interval containing 0 (result is the
+   whole line), pow and the elementary functions (decided by correspondence / certificates). *)
 From Coq Require Import ZArith Reals.
-From MP Require Import Algo.Base Algo.Libmpf Algo.Libmpi Spec.Mpf Spec.Round Proofs.IvCmp Proofs.IvContain.
+From MP Require Import Algo.Base Algo.Libmpf Algo.Libmpi Spec.Mpf Spec.Round Proofs.IvCmp Proofs.IvContain Proofs.IvMul Proofs.IvDiv Proofs.IvSqrt.
 Open Scope Z_scope.
 
 Theorem C14_add_contains : forall s t prec x y, valid_iv s -> valid_iv t -> 0 <= prec -> in_iv s x -> in_iv t y ->
@@ -17,3 +19,25 @@ Proof. exact mpi_neg_contains. Qed.
 Theorem C14_pos_contains : forall s prec x, valid_iv s -> 0 <= prec -> in_iv s x ->
   in_iv (mpi_pos s prec) x /\ valid_iv (mpi_pos s prec).
 Proof. exact mpi_pos_contains. Qed.
+
+Theorem C14_mul_contains : forall s t prec x y, valid_iv s -> valid_iv t -> 0 <= prec -> in_iv s x -> in_iv t y ->
+  in_iv (mpi_mul s t prec) (x * y) /\ valid_iv (mpi_mul s t prec).
+Proof. exact mpi_mul_contains. Qed.
+Print Assumptions C14_mul_contains.
+Theorem C14_square_contains : forall s prec x, valid_iv s -> 0 <= prec -> in_iv s x ->
+  in_iv (mpi_square s prec) (x * x) /\ valid_iv (mpi_square s prec).
+Proof. exact mpi_square_contains. Qed.
+Theorem C14_abs_contains : forall s prec x, valid_iv s -> 0 <= prec -> in_iv s x ->
+  in_iv (mpi_abs s prec) (Rabs x) /\ valid_iv (mpi_abs s prec).
+Proof. exact mpi_abs_contains. Qed.
+Theorem C14_div_contains : forall s t prec x y, valid_iv s -> valid_iv t -> 0 < prec ->
+  ((0 < rv (fst t))%R \/ (rv (snd t) < 0)%R) -> in_iv s x -> in_iv t y ->
+  exists r, mpi_div s t prec = Ok r /\ in_iv r (x / y) /\ valid_iv r.
+Proof. exact mpi_div_contains. Qed.
+Print Assumptions C14_div_contains.
+Theorem C14_sqrt_contains : forall s prec x, valid_iv s -> (0 <= rv (fst s))%R -> 0 < prec -> in_iv s x ->
+  exists r, mpi_sqrt s prec = Ok r /\ in_iv r (sqrt x) /\ valid_iv r.
+Proof. exact mpi_sqrt_contains. Qed.
+(* non-vacuity: a mixed-sign product takes the min/max branch *)
+Example C14_mixed : mpi_mul (Mpf 1 1 0 1, Mpf 0 1 1 1) (Mpf 1 3 0 2, Mpf 0 1 0 1) 53 = (Mpf 1 3 1 2, Mpf 0 3 0 2).  (* [-1,2]*[-3,1] = [-6,3] *)
+Proof. vm_compute. reflexivity. Qed.
